@@ -73,9 +73,9 @@ class Workspace:
             return "unknown"
 
     def cleanup(self):
+        kill_children()
         if os.environ.get("VERIF_KEEP"):
             return
-        kill_children()
         shutil.rmtree(self.root, ignore_errors=True)
 
     # -- edits of the snapshot -------------------------------------------------
@@ -124,6 +124,15 @@ class Workspace:
         self.write(rel, new)
         if label not in self.transforms:
             self.transforms.append(label)
+
+    def strip_thorough(self, harness_file):
+        """Quick tier: drop the lines marked `// @thorough` from the scratch copy of a harness
+        file (fewer harnesses to codegen)."""
+        hp = os.path.join(self.hdir, "incrate", harness_file)
+        with open(hp) as f:
+            lines = f.readlines()
+        with open(hp, "w") as f:
+            f.writelines(l for l in lines if "// @thorough" not in l)
 
     def ext_crate(self, name):
         """Instantiate an external harness crate /verif/harness/ext/<name> in the
@@ -191,7 +200,7 @@ def run_cmd(cmd, cwd, timeout, mem_gb=None, logfile=None, env=None):
 
 class Harness:
     def __init__(self, name, bound, functions, clause, timeout=900, mem_gb=16,
-                 extra=None, stubs=None, min_covers=1, witness_class=None, mod=None):
+                 extra=None, stubs=None, min_covers=1, witness_class=None, mod=None, cover_group=None):
         self.name = name
         self.mod = mod                # module path inside the crate, e.g. "eval::verif_c03_eval"
         self.bound = bound            # text: stated bound
@@ -203,6 +212,9 @@ class Harness:
         self.stubs = stubs or []
         self.min_covers = min_covers
         self.witness_class = witness_class
+        # covers of harnesses sharing a cover_group only need to be satisfied in ONE harness of the
+        # group (arms of a shape split); covers whose description starts with "each:" in every one
+        self.cover_group = cover_group
 
 
 class KaniResult:
@@ -224,6 +236,7 @@ class KaniResult:
         self.sat_queries = 0
         self.log = ""
         self.replay = None             # dict filled by replay step
+        self.covers = {}               # description -> status
 
     def to_json(self):
         d = {
@@ -246,7 +259,7 @@ class KaniResult:
         return d
 
 
-CHECK_RE = re.compile(r"^Check \d+: (\S+)\n\t - Status: (\w+)\n\t - Description: \"(.*)\"\n(?:\t - Location: (.*)\n)?",
+CHECK_RE = re.compile(r"^Check \d+: (.+)\n\t - Status: (\w+)\n\t - Description: \"(.*)\"\n(?:\t - Location: (.*)\n)?",
                       re.M)
 
 
@@ -275,6 +288,10 @@ def parse_kani(out, res):
     for name, status, desc, loc in CHECK_RE.findall(out):
         if status in ("FAILURE", "UNDETERMINED"):
             res.failed_props.append((name, desc, loc or ""))
+        if ".cover." in name:
+            prev = res.covers.get(desc)
+            if prev != "SATISFIED":
+                res.covers[desc] = status
     ok = "VERIFICATION:- SUCCESSFUL" in out
     failed = "VERIFICATION:- FAILED" in out
     if "Status: ERROR" in out or "CBMC failed" in out or "std::bad_alloc" in out \
@@ -285,9 +302,13 @@ def parse_kani(out, res):
         if res.covers_total < res.h.min_covers:
             res.status, res.reason = "inconclusive", "fewer cover witnesses than expected"
         elif res.covers_sat != res.covers_total:
-            res.status = "inconclusive"
-            res.reason = "vacuity guard: %d of %d cover witnesses unsatisfied" % (
-                res.covers_total - res.covers_sat, res.covers_total)
+            bad = [d for d, st in res.covers.items() if st != "SATISFIED"
+                   and (res.h.cover_group is None or d.startswith("each:"))]
+            if bad:
+                res.status = "inconclusive"
+                res.reason = "vacuity guard: cover witness unsatisfied: " + "; ".join(bad[:3])
+            else:
+                res.status = "ok"   # group-level covers are judged in Outcome.add_kani_results
         else:
             res.status = "ok"
         return
@@ -296,6 +317,14 @@ def parse_kani(out, res):
                 and not p[0].endswith(".unwind") and ".unwind." not in p[0]
                 and "unsupported" not in p[1].lower()]
         unwind = [p for p in res.failed_props if p not in real]
+        # a failed check inside the harness code that is not one of its stated property
+        # assertions ("Cnn ...") is a defect of the machinery (e.g. an index error in a stub)
+        infra = [p for p in real if "/harness/" in p[2] and not re.match(r"C\d\d ", p[1])]
+        real = [p for p in real if p not in infra]
+        if infra and not real:
+            res.status = "inconclusive"
+            res.reason = "harness-internal check failed (machinery error, not a verdict): %s at %s" % (infra[0][1], infra[0][2])
+            return
         if real:
             res.status = "failed"
             res.reason = "; ".join(sorted(set(p[1] for p in real))[:4])
@@ -515,6 +544,20 @@ class Outcome:
         """Fold Kani results in; failed harnesses are replayed natively first.
         `confirm(res)` optionally performs the second confirmation against the
         untransformed crates (returns (bool, note))."""
+        groups = {}
+        for r in results:
+            if r.h.cover_group:
+                g = groups.setdefault(r.h.cover_group, {})
+                for d, st in r.covers.items():
+                    if st == "SATISFIED" or d not in g:
+                        g[d] = st
+        for gname, g in groups.items():
+            members = [r for r in results if r.h.cover_group == gname]
+            if all(r.status == "ok" for r in members):
+                bad = [d for d, st in g.items() if st != "SATISFIED"]
+                if bad:
+                    self.inconclusive.append("vacuity guard: cover witness satisfied in no arm of %s: %s"
+                                             % (gname, "; ".join(bad[:3])))
         for r in results:
             self.evaluations += r.checks_total + r.covers_total
             self.nontrivial += max(0, r.checks_total - r.checks_unreachable - r.checks_failed) + r.covers_sat
@@ -616,7 +659,10 @@ def generic_replay(prop_id, path, setup):
         return 2
     name = m.group(1)
     w = Workspace(prop_id.lower() + "r")
-    sess = setup(w)
+    try:
+        sess = setup(w, name)
+    except TypeError:
+        sess = setup(w)
     h = Harness(name, "", [], "")
     code = text[text.index("#[test]"):] if "#[test]" in text else text
     ok, note = sess.run_playback(h, code)
